@@ -428,7 +428,7 @@ int main(int argc, char** argv) {
     level_begin = level_end; depth++;
   }
   for (size_t i = 0; i < states.size(); i++) { std::string h; for (int k : states[i].hist) h += std::to_string(k) + ","; fprintf(g_log, "N\t%zu\t%s\n", i, h.c_str()); }
-  fprintf(g_log, "Z\t%zu\t%ld\t%d\t%d\t%d\n", states.size(), transitions, depth, (int)(level_begin >= states.size()), (int)timed_out);
+  fprintf(g_log, "Z\t%zu\t%ld\t%d\t%d\t%d\t%d\n", states.size(), transitions, depth, (int)(level_begin >= states.size()), (int)timed_out, SP.max_depth);
   fclose(g_log);
   return 0;
 }
@@ -461,6 +461,7 @@ static Space make_space(const std::string& id) {
     for (auto& n : names) { for (LD v : vals) S.ops.push_back(opSet(0, n, v)); S.ops.push_back(opGet(0, n)); }
     S.ops.push_back(mk(INITPARAM, 0)); S.ops.push_back(mk(PURGE, 0)); S.ops.push_back(mk(SANITY, 0)); S.ops.push_back(mk(DISPLAY, 0));
     for (auto& vn : d.vn) { std::vector<int> lens = {0, 3}; if (g_tier) { lens.push_back(1); lens.push_back(30); } for (int n : lens) S.ops.push_back(opSetVec(0, vn, n)); S.ops.push_back(opGetVec(0, vn)); if (!g_tier) break; }
+    if (EVAL_OF.count(sol)) S.ops.push_back(opEval(0, EVAL_OF[sol].first, EVAL_OF[sol].second, 0));  // evaluators use the values (and vector lengths) last set
     if (!d.vn.empty()) { S.ops.push_back(opSetVec(0, "no_such_vector", 2)); S.ops.push_back(opGetVec(0, "no_such_vector")); S.ops.push_back(mk(DISPLAYVEC, 0)); }
   } else if (id == "c11all" || id == "c11allp") {
     // leak sweep: set_param on EVERY registered name, one step from the default state and from the purged state
